@@ -532,31 +532,18 @@ func checkC13(c C13Case) (bool, *Violation) {
 		for _, m := range out {
 			rx.Feed(m)
 		}
+		if ws.Model.Kind == "panic" {
+			// every panic of the history (the inserted one and those of the base history) addresses the current channel
+			if bv := checkPanicBurst(i, ws); bv != nil {
+				return true, bv
+			}
+			if origin[i] >= 0 {
+				classify("history with more than one panic")
+			}
+		}
 		switch origin[i] {
 		case -1:
 			panicSeen = true
-			ch := ws.Pre.Channel
-			seenOff := [128]bool{}
-			cc := false
-			for _, m := range out {
-				switch {
-				case len(m) == 3 && m[0] == 0xB0|byte(ch) && m[1] == 123:
-					cc = true
-				case len(m) == 3 && isNoteOff(m) && int(m[0]&0x0f) == ch && m[1] < 128:
-					seenOff[m[1]] = true
-				default:
-					return true, violation("C13", "burst-content", "", "panic on channel %d emitted %x, which is neither All Notes Off nor a Note Off on that channel (%s)",
-						ch+1, m, describeStep(i, ws))
-				}
-			}
-			if !cc {
-				return true, violation("C13", "burst-missing-all-notes-off", "", "panic on channel %d did not send CC 123 (%s)", ch+1, fmtMsgs(out))
-			}
-			for n := 0; n < 128; n++ {
-				if !seenOff[n] {
-					return true, violation("C13", "burst-missing-note-off", "", "panic on channel %d sent no Note Off for pitch %d (%d messages)", ch+1, n, len(out))
-				}
-			}
 			for code, hn := range ww.Model.perKeySnapshot(i, ww) {
 				heldAtPanic[code] = true
 				heldPitches[hn] = true
@@ -606,6 +593,33 @@ func checkC13(c C13Case) (bool, *Violation) {
 	classifyIf(c.Hold > 0, "panic key held for a while")
 	classify("mode " + c.D.Mode)
 	return nontrivialHeld && laterSamePitch, nil
+}
+
+func checkPanicBurst(i int, ws *walkStep) *Violation {
+	out := ws.Res.Out
+	ch := ws.Pre.Channel
+	seenOff := [128]bool{}
+	cc := false
+	for _, m := range out {
+		switch {
+		case len(m) == 3 && m[0] == 0xB0|byte(ch) && m[1] == 123:
+			cc = true
+		case len(m) == 3 && isNoteOff(m) && int(m[0]&0x0f) == ch && m[1] < 128:
+			seenOff[m[1]] = true
+		default:
+			return violation("C13", "burst-content", "", "panic on channel %d emitted %x, which is neither All Notes Off nor a Note Off on that channel (%s)",
+				ch+1, m, describeStep(i, ws))
+		}
+	}
+	if !cc {
+		return violation("C13", "burst-missing-all-notes-off", "", "panic on channel %d did not send CC 123 (%s)", ch+1, fmtMsgs(out))
+	}
+	for n := 0; n < 128; n++ {
+		if !seenOff[n] {
+			return violation("C13", "burst-missing-note-off", "", "panic on channel %d sent no Note Off for pitch %d (%d messages)", ch+1, n, len(out))
+		}
+	}
+	return nil
 }
 
 func prevState(w *walk, i int) interface{} {
